@@ -12,6 +12,11 @@ Specs     : spec/RandomGen.tla     generator re-seeding + reader size bookkeepin
             spec/RandomWindow.tla  cylindrical equal-area sampling on an exact rational grid
                                    (declinations with rational sines): footprint + area law.
             spec/RandomGenTrace.tla trace validation of recorded operation logs.
+            spec/RandomGenAttrs.tla the joint attribute draw: one index for weights[idx] and redshifts[idx]; what
+                                   values[idx] means depends on the CONTAINER of the samples (numpy array: position,
+                                   pandas Series with a permuted integer index: label); every case (container, index
+                                   labels, drawn index) is evaluated on the real generators; the container is also a
+                                   dimension of the generator configurations all histories / traces run on.
 TLC       : ideal design (Deviations = {}) passes ExactSize, ReseedAtPassStart, Reproducible,
             ReseedRestores, SeedAsRequested, SeedControlled, CreateNeverRejected,
             ConstructNeverRejected, Termination over ALL histories of a construction (every seed of
@@ -236,6 +241,12 @@ BOX_WINDOWS = [
     ((10.0, 20.0, 33.0, 33.0), "zero_height_dec"),
 ]
 ATTR_KINDS = ["wz", "none", "w", "z"]
+CONTAINERS = ("ndarray", "series", "series_perm")  # RandomGenAttrs!Containers
+# container of the attribute samples per box configuration (window i): [attrs "wz" (j = 0), varying attrs (j = 1)]
+# (a third of them pandas Series: every draw from a Series costs ~15x the draw from an array inside pandas)
+BOX_CONTAINERS = [("ndarray", "series_perm"), ("series", "ndarray"), ("series_perm", "ndarray"), ("series_perm", "ndarray"),
+                  ("ndarray", "ndarray"), ("ndarray", "series_perm"), ("ndarray", "ndarray"), ("ndarray", "series")]
+HP_CONTAINERS = ("ndarray", "series_perm", "series")
 _TRACED: dict = {}
 
 
@@ -271,7 +282,7 @@ class World:
     mapping of the spec's abstract seeds to real seeds."""
 
     def __init__(self, yaw, root: Path, idx: int, *, kind="box", window=None, wclass="", attrs="wz", nsrc=7,
-                 seedpair=(12345, 2**32 - 1), healpix=None) -> None:
+                 seedpair=(12345, 2**32 - 1), healpix=None, container="ndarray", index=None) -> None:
         self.yaw = yaw
         self.root = root
         self.idx = idx
@@ -296,6 +307,16 @@ class World:
         self.rows = None
         if self.w_src is not None and self.z_src is not None:
             self.rows = {(float(w), float(z)) for w, z in zip(self.w_src, self.z_src)}
+        # the CONTAINER the samples are passed in (RandomGenAttrs): w_src / z_src stay the table BY POSITION (the oracle)
+        assert container in CONTAINERS
+        self.container = container
+        self.index = None
+        if container == "series_perm":  # integer index = a permutation of 0..n-1, not the identity (if n > 1)
+            perm = np.asarray(index) if index is not None else srng.permutation(nsrc)
+            if index is None and nsrc > 1 and np.array_equal(perm, np.arange(nsrc)):
+                perm = np.roll(perm, 1)
+            assert sorted(perm.tolist()) == list(range(nsrc))
+            self.index = perm
         self.healpix = healpix
         from yaw import randoms
 
@@ -318,7 +339,10 @@ class World:
     # -- construction ---------------------------------------------------
     def describe(self) -> dict:
         d = dict(kind=self.kind, attrs=self.attrs, seeds=self.seedmap, nsrc=None if self.w_src is None and self.z_src is None else
-                 len(self.w_src if self.w_src is not None else self.z_src))
+                 len(self.w_src if self.w_src is not None else self.z_src), container=self.container,
+                 dtypes=[str(x.dtype) for x in (self.w_src, self.z_src) if x is not None])
+        if self.index is not None:
+            d["series_index"] = self.index.tolist()[:16]
         if self.kind == "box":
             d["window_deg"] = list(self.window)
             d["window_class"] = self.wclass
@@ -329,7 +353,7 @@ class World:
 
     def new_gen(self, real_seed: int, keep_log: bool = False):
         """The public constructor (may raise: callers go through lib() / fresh())."""
-        kw = dict(weights=self.w_src, redshifts=self.z_src, seed=real_seed)
+        kw = dict(weights=self.wrap(self.w_src, "weights"), redshifts=self.wrap(self.z_src, "redshifts"), seed=real_seed)
         if self.kind == "box":
             g = self.cls(*self.window, **kw)
         else:
@@ -338,6 +362,18 @@ class World:
         if not keep_log:
             take_log(g)
         return g
+
+    def wrap(self, values, name):
+        """The attribute samples in the container of this configuration (a new object per generator)."""
+        if values is None:
+            return None
+        if self.container == "ndarray":
+            return values.copy()
+        import pandas as pd
+
+        if self.container == "series":
+            return pd.Series(values.copy(), name=name)
+        return pd.Series(values.copy(), index=self.index.copy(), name=name)
 
     def ctor_text(self, real_seed) -> str:
         if self.kind == "box":
@@ -482,7 +518,7 @@ class World:
             return coarse_window_class(self.window, bad)
         if bad.startswith("outside") or bad.startswith("non_finite"):
             return self.wclass or "any"
-        return f"attrs={self.attrs}"
+        return f"attrs={self.attrs}" + ("" if self.container == "ndarray" else f",container={self.container}")
 
     def points_bad(self, arr) -> str | None:
         names = arr.dtype.names
@@ -963,16 +999,17 @@ def make_worlds(yaw, root: Path, seed: int) -> dict:
             attrs = ATTR_KINDS[(i + 2 * j + seed) % 4] if j else "wz"
             nsrc = [7, 1, 200, 13][(i + j) % 4]
             worlds["box"].append(World(yaw, root, idx, kind="box", window=win, wclass=wclass, attrs=attrs, nsrc=nsrc,
-                                       seedpair=SEED_PAIRS[(idx + seed) % len(SEED_PAIRS)]))
+                                       seedpair=SEED_PAIRS[(idx + seed) % len(SEED_PAIRS)], container=BOX_CONTAINERS[i][j]))
             idx += 1
     hp1 = np.zeros(48)
     hp1[[3, 17, 18, 40]] = [1.0, 2.0, 0.5, 1.0]
     hp2 = np.zeros(12)
     hp2[[0, 5, 11]] = 1.0
-    for hp in (dict(values=hp1.tolist(), nested=True, is_mask=False), dict(values=hp2.tolist(), nested=False, is_mask=True),
-               dict(values=hp1.tolist(), nested=False, is_mask=False)):
+    for h, hp in enumerate((dict(values=hp1.tolist(), nested=True, is_mask=False), dict(values=hp2.tolist(), nested=False, is_mask=True),
+                            dict(values=hp1.tolist(), nested=False, is_mask=False))):
         worlds["healpix"].append(World(yaw, root, idx, kind="healpix", attrs="wz" if idx % 2 else "w", nsrc=7, healpix=hp,
-                                       wclass="healpix_mask", seedpair=SEED_PAIRS[(idx + seed) % len(SEED_PAIRS)]))
+                                       wclass="healpix_mask", seedpair=SEED_PAIRS[(idx + seed) % len(SEED_PAIRS)],
+                                       container=HP_CONTAINERS[h]))
         idx += 1
     return worlds
 
@@ -1435,6 +1472,136 @@ def window_class(w) -> str:
 
 
 # ---------------------------------------------------------------------------
+# C2. joint attribute draw x container of the samples (RandomGenAttrs)
+# ---------------------------------------------------------------------------
+
+
+def attr_check(ctx, yaw, worlds, seed: int) -> None:
+    """TLC enumerates (container, index labels of the source table, drawn index) with the positions of the table the two
+    lookups weights[idx] / redshifts[idx] hit; every case is evaluated on the real BoxRandoms and HealPixRandoms.
+    VIOLATION (property predicate): a drawn (weight, redshift) pair is not a row of the table as passed, BY POSITION.
+    drift (model binding): the row differs from the one the spec computes for the drawn index."""
+    nrows = 3 if ctx.quick else 4
+    consts = dict(NRows=nrows, Containers=tla_set(CONTAINERS), Deviations="{}")
+    invs = ["TypeOK", "JointRow", "EveryRowReachable"]
+    res = tlc.run("RandomGenAttrs", tlc.make_cfg(constants=consts, invariants=invs + ["PrintDone"], properties=["Termination"]), coverage=True)
+    ctx.add_tlc("RandomGenAttrs ideal (joint attribute draw), all containers x index permutations x drawn indices", res, constants=consts)
+    ctx.require(res.ok, f"RandomGenAttrs ideal design violated: {res.error_kind} {res.error_name}")
+    for act in ("Store", "DrawIndex", "LookupW", "LookupZ"):
+        ctx.require(res.coverage.get(act, (0, 0))[1] > 0, f"RandomGenAttrs action {act} never taken")
+    # admissible alternative design: both sample sets converted to numpy arrays at construction (both lookups by position)
+    ares = tlc.run("RandomGenAttrs", tlc.make_cfg(constants=dict(consts, Deviations='{"SamplesCastAtConstruction"}'),
+                                                  invariants=invs + ["PrintDone"], properties=["Termination"]))
+    ctx.add_tlc("RandomGenAttrs variant SamplesCastAtConstruction (admissible alternative)", ares)
+    ctx.require(ares.ok, f"RandomGenAttrs variant SamplesCastAtConstruction violated: {ares.error_kind} {ares.error_name}")
+    cases: dict = {}
+    variants = {"as_passed": {}, "cast_at_construction": {}}
+    for name, r in (("as_passed", res), ("cast_at_construction", ares)):
+        for sc, idx, pw, pz in r.printed("attrcase"):
+            variants[name].setdefault((sc["c"], tuple(sc["ix"])), {})[idx] = (pw, pz)
+    cases = variants["as_passed"]
+    ctx.require(set(variants["cast_at_construction"]) == set(cases), "RandomGenAttrs: the variants explore different cases")
+    rule_seen: dict = {}
+    nperm = math.factorial(nrows)
+    ctx.require(len(cases) == 2 + nperm - 1 and all(len(v) == nrows for v in cases.values()),
+                f"RandomGenAttrs: unexpected number of cases ({len(cases)})")
+    ctx.require({c for c, _ in cases} == set(CONTAINERS), "RandomGenAttrs: a container kind was not explored")
+    dres = tlc.run("RandomGenAttrs", tlc.make_cfg(constants=dict(consts, Deviations='{"WeightsCastAtConstruction"}'), invariants=invs))
+    ctx.add_tlc("RandomGenAttrs deviation WeightsCastAtConstruction", dres)
+    ctx.require(not dres.ok and dres.error_name == "JointRow", "deviation WeightsCastAtConstruction yields no counterexample (stale model)")
+    cex = dres.trace[-1]["state"]
+    cex_key = (cex["sc"]["c"], tuple(cex["sc"]["ix"]))
+    ctx.require(cex_key in cases and cex_key[0] == "series_perm", "counterexample of WeightsCastAtConstruction is not among the ideal cases")
+
+    M = 96
+    hp = worlds["healpix"][0].healpix
+    win = BOX_WINDOWS[0][0]
+    summary = dict(cases=0, containers=sorted({c for c, _ in cases}), points_per_case=M, rows=nrows)
+    shown = {}
+
+    def evaluate(kind, c, ix, real_seed, selfcheck=None):
+        """[(finding kind, key, detail)] of one (generator kind, container, index labels) on the real code"""
+        index = [lab - 1 for lab in ix]  # labels of the spec are 1-based
+        kw = dict(kind=kind, window=win, healpix=hp, attrs="wz", nsrc=nrows, wclass="attr_case")
+        wd = World(yaw, Path("."), 96, container=c, index=index if c == "series_perm" else None, **kw)
+        ref = World(yaw, Path("."), 96, container="ndarray", **kw)  # same table; numpy arrays: the drawn index IS the position
+        ep = f"{wd.clsname}.__call__"
+        detail = dict(world=wd.describe(), seed=real_seed, n=M, weights=wd.w_src.tolist(), redshifts=wd.z_src.tolist())
+        out = []
+        try:
+            gens = [lib(x.new_gen, real_seed) for x in (wd, ref)]
+        except LibError as err:  # the constructor refuses a valid input (container / seed)
+            sink = Findings()
+            wd.ctor_failed(real_seed, err.exc, sink)
+            if real_seed != 0:  # not the seed: the input class is the container of the samples
+                sink.items = [("violation", f"C16|{wd.clsname}.__init__|{wd.key_class('attr')}|raises_{type(err.exc).__name__}", sink.items[0][2])]
+            return sink.items
+        try:
+            arr = lib(gens[0], M)
+            raw = lib(gens[1], M)
+        except LibError as err:
+            return [("violation", f"C16|{ep}|{wd.key_class('attr')}|raises_{type(err.exc).__name__}",
+                     dict(detail, error=repr(err.exc), traceback=tb_text(err.exc)))]
+        if selfcheck == "mixed":  # what the deviation does, done here by hand (whatever the tree's own rule is): for the drawn
+            arr = arr.copy()       # index i the weight at POSITION i and the redshift with LABEL i
+            drawn = [{float(w): k for k, w in enumerate(ref.w_src)}[float(x)] for x in raw["weights"]]
+            arr["weights"] = [wd.w_src[i] for i in drawn]
+            arr["redshifts"] = [wd.z_src[index.index(i)] for i in drawn]
+        if len(arr) != M:
+            out.append(("violation", f"C16|{ep}|direct|size_{'short' if len(arr) < M else 'long'}", dict(detail, got=len(arr))))
+        bad = wd.points_bad(arr)
+        if bad:
+            out.append(("violation", f"C16|{ep}|{wd.key_class(bad)}|{bad}", dict(detail, first_pairs=[
+                [float(a), float(b)] for a, b in zip(arr["weights"][:6], arr["redshifts"][:6])])))
+        if selfcheck is None and len(raw) == len(arr) == M and not bad and not ref.points_bad(raw):
+            pos = {float(w): k for k, w in enumerate(ref.w_src)}
+            seen = set()
+            match = {name: True for name in variants}
+            for j in range(M):
+                i = pos[float(raw["weights"][j])] + 1  # the drawn index (1-based)
+                seen.add(i)
+                for name, vc in variants.items():
+                    pw, pz = vc[(c, tuple(ix))][i]
+                    if (float(arr["weights"][j]), float(arr["redshifts"][j])) != (float(wd.w_src[pw - 1]), float(wd.z_src[pz - 1])):
+                        match[name] = False
+            rules = sorted(name for name, ok in match.items() if ok)
+            if not rules:  # the rows are joint (predicate above) but neither design variant of the spec explains WHICH row was drawn
+                out.append(("drift", f"C16|{ep}|attribute_lookup_differs_from_spec", dict(detail, drawn_indices=sorted(seen))))
+            elif c == "series_perm":  # the only container on which the variants differ
+                rule_seen.setdefault(kind, set()).update(rules if len(rules) == 1 else ())
+            for i in seen:
+                ctx.evaluated(1, ("attrcase", kind, c, tuple(ix), i))
+            summary["cases"] += len(seen)
+        return out
+
+    for n, ((c, ix), _) in enumerate(sorted(cases.items())):
+        for kind in ("box", "healpix"):
+            for kind_, key, detail in evaluate(kind, c, ix, [0, 7, 12345][(n + seed) % 3]):
+                (ctx.violation if kind_ == "violation" else ctx.drift)(key, detail)
+        ctx.validated(1)
+    ctx.require(summary["cases"] >= 2 * len(cases) * (nrows - 1), f"too few attribute cases evaluated on the real code: {summary['cases']}")
+    # the deviation's counterexample on the real code + binding demonstration (a hand-made mixed lookup must be rejected)
+    for kind in ("box", "healpix"):
+        found = evaluate(kind, cex_key[0], cex_key[1], 4711, selfcheck="replay")
+        for kind_, key, detail in found:
+            if kind_ == "violation":
+                ctx.violation(key, dict(detail, found_by="replay of the TLC counterexample of deviation WeightsCastAtConstruction"))
+        shown[kind] = sorted({k for kind_, k, _ in found if kind_ == "violation"})
+        wrong = evaluate(kind, cex_key[0], cex_key[1], 4711, selfcheck="mixed")
+        ctx.require(any(k.endswith("attributes_not_joint") for _, k, _ in wrong) or any("|raises_" in k for _, k, _ in wrong),
+                    "binding demonstration failed: weights by position + redshifts by label pass the joint-row predicate")
+    ctx.sample(dict(kind="attribute case", container=cex_key[0], index_labels=[x - 1 for x in cex_key[1]],
+                    law="weights[idx] and redshifts[idx] hit the same position of the table as passed",
+                    spec_positions_per_drawn_index={i - 1: [p - 1 for p in v] for i, v in cases[cex_key].items()}))
+    ctx.extra["attribute_containers"] = dict(summary, lookup_rule_of_the_tree={k: sorted(v) for k, v in rule_seen.items()},
+                                             deviation_WeightsCastAtConstruction=dict(
+        tlc_counterexample=dict(container=cex_key[0], index_labels=[x - 1 for x in cex_key[1]], drawn_index=cex["idx"] - 1,
+                                positions=[cex["pw"] - 1, cex["pz"] - 1]),
+        real_code_shows={k: bool(v) for k, v in shown.items()}, keys=shown, hand_made_mixed_lookup_rejected=True),
+        configurations={c: sum(1 for ws in worlds.values() for w in ws if w.container == c) for c in CONTAINERS})
+
+
+# ---------------------------------------------------------------------------
 # D. code -> spec: random operation sequences validated by TLC
 # ---------------------------------------------------------------------------
 
@@ -1734,15 +1901,18 @@ def pool_runs(ctx, worlds, rng) -> None:
 
 
 def run(ctx) -> None:
-    """Verdict keys: a reproducibility finding on the edge-value seed 0 carries the input class ``...,seed=0``.  It stays a
-    key of its own only if the same entry point / history class does NOT fail for the non-zero seeds as well (a defect
-    specific to seed 0); otherwise it is an instance of the general defect and counted under the general key."""
+    """Verdict keys: a reproducibility finding on the edge-value seed 0 carries the input class ``...,seed=0``, an attribute
+    finding on samples passed as pandas Series the class ``...,container=series[_perm]``.  Such a key stays a key of its
+    own only if the same entry point / class does NOT fail for the general case as well (non-zero seeds / numpy arrays):
+    then the defect is specific to the sub-class; otherwise it is an instance of the general defect and counted under
+    the general key."""
     held: list = []
     general: set = set()
     report = ctx.violation
+    special = re.compile(r",(seed=0|container=\w+)(?=[|,])")  # input classes that are sub-classes of a general one
 
     def violation(key, detail):
-        if ",seed=0|" in key:
+        if special.search(key):
             held.append((key, detail))
         else:
             general.add(key)
@@ -1754,7 +1924,7 @@ def run(ctx) -> None:
     finally:  # also after a machinery failure: what the real code showed before is evidence (harness.core reports it)
         ctx.violation = report
         for key, detail in held:
-            base = key.replace(",seed=0|", "|")
+            base = special.sub("", key)
             report(base if base in general else key, detail)
 
 
@@ -1782,6 +1952,12 @@ def _run(ctx) -> None:
     ctx.assume("seed domain: the real seed 0 (falsy edge value) + two non-zero seeds per generator configuration (rotating over 1, 2, 7, "
                "12345, 2**31, 2**32-1, 2**32, 2**63, 2**64+11, ...), each used for construction and for reseed(s) at any point of a "
                "history; negative seeds are rejected by numpy's SeedSequence (invalid input, not explored)")
+    ctx.assume("attribute samples: numpy arrays (float64, float32, int64), pandas Series with the default index and pandas Series whose "
+               "integer index is a permutation of 0..n-1, weights and redshifts in the SAME kind of container; the oracle is the table "
+               "by position (series.to_numpy()[k]).  Not explored (the library as found refuses or mishandles them, reported to the lead, "
+               "annotated `NDArray`): Python lists / tuples (TypeError at the first draw), Series whose index is not a permutation of "
+               "0..n-1 (KeyError at the first draw), weights and redshifts in DIFFERENT containers.  Re-assigning generator.weights / "
+               ".redshifts after construction is not an operation of the property (the samples are those supplied to the constructor)")
     ctx.assume("interleaving direct draws or a second reader INTO a running pass is outside the property ('used before'): "
                "the spec allows other operations only between passes (Abandon ends a pass early)")
     ctx.assume("healpy is not installed: HealPixRandoms runs on harness/fakehealpy.py (HEALPix nested/ring index arithmetic, "
@@ -1832,6 +2008,7 @@ def _run(ctx) -> None:
         ctx.extra["worlds"] = [w.describe() for w in worlds["box"][:3]] + [worlds["healpix"][0].describe()]
 
         window_check(ctx, yaw, ctx.seed)
+        attr_check(ctx, yaw, worlds, ctx.seed)
         trace_validation(ctx, worlds, rng, observed)
         pool_runs(ctx, worlds, rng)
     ctx.exhaustive = not (c2["cut_by_time_budget"] or c1["cut_by_time_budget"])
